@@ -796,13 +796,29 @@ def c09_t1(ctx, f):
     if not fn:
         return
     F = mkfolder(f)
+    wrong = {"admits": [], "rejects": []}
+    unfold = []
     for c in range(256):
         r = F.run(fn.path, [mk_int("u8", c)])
         exp = chr(c) in ref.ALNUM
-        ctx.check(rid, retval(r) is exp, "%s/0x%02x" % (fn.path, c), where_fn(fn), fn.path, "byte 0x%02x %r" % (c, chr(c)),
-                  "classifier %s a byte that %s in the alphanumeric set" % (
-                      "admits" if retval(r) else "rejects", "is not" if not exp else "is"),
-                  expected=exp, found=describe(r), sample="0x%02x -> %s" % (c, retval(r)))
+        got = retval(r)
+        if got is exp:
+            ctx.ok(rid, "0x%02x -> %s" % (c, got))
+        elif got is True or got is False:
+            wrong["admits" if got else "rejects"].append(c)
+        else:
+            unfold.append((c, describe(r)))
+    # one report per direction (a wrong classifier is usually wrong on a family of bytes)
+    for how, cs in wrong.items():
+        if cs:
+            ctx.fail(rid, "%s/%s" % (fn.path, how), where_fn(fn), fn.path, "%d byte(s): %s%s" % (
+                len(cs), ", ".join("0x%02x" % c for c in cs[:12]), " ..." if len(cs) > 12 else ""),
+                "classifier %s bytes that %s in the alphanumeric set" % (how, "are not" if how == "admits" else "are"),
+                expected=(how != "admits"), found=(how == "admits"))
+            ctx.rules[rid]["obligations"] += len(cs) - 1
+    if unfold:
+        ctx.fail(rid, "%s/unfoldable" % fn.path, where_fn(fn), fn.path, "byte 0x%02x %r" % (unfold[0][0], chr(unfold[0][0])),
+                 "classifier does not fold", found=unfold[0][1])
 
 
 def c09_t2(ctx, f):
